@@ -46,3 +46,23 @@ Proof.
       destruct (comp_pack_subs subs mode set sts body Ebody t s' x Hi Hnd Hm Hx) as (pb & Hpb & _).
       apply (IH t s' Hi (Hcs' t s' Hi) x pb Hpb).
 Qed.
+
+(* ---- messages ---- *)
+From Iso Require Import Model.Message Proofs.StateProofs Proofs.MessageRoundtrip Proofs.MessageAccept2.
+From Coq Require Import Sorting.Permutation.
+
+(* when Pack of a message succeeds, the declared lengths were enforced in every populated data element, at every depth *)
+Theorem message_pack_tree S m m' b : (forall id s, zlookup id (ms_fields S) = Some s -> coherent s) ->
+  m_pack S m = (m', Ok b) ->
+  forall id, 2 <= id -> zmem id (m_present m) = true -> bm_is_presence_bit (ms_bm S) id = false ->
+    exists s st, zlookup id (ms_fields S) = Some s /\ zlookup id (m_fields m) = Some st /\ pack_enforced s st.
+Proof.
+  intros Hcoh Hp id H2 Hm Hpb. unfold m_pack in Hp. destruct (m_bitmap_content S m) as (_ & Hf & Hpres).
+  destruct (set_bits (ms_bm S) (packable_ids (m_bitmap S m)) (bm_new (ms_bm S))) as [bm [u|e|q|]]; try (inversion Hp; fail).
+  cbv zeta in Hp. assert (Hpk : pack_ids S (with_bm (m_bitmap S m) bm) bm (packable_ids (m_bitmap S m)) = Ok b) by (inversion Hp; reflexivity).
+  assert (Hin : In id (packable_ids (m_bitmap S m))).
+  { unfold packable_ids. apply (Permutation_in id (sort_z_is_perm _)). right. apply zmem_In. rewrite zmem_zremove by lia. rewrite Hpres by lia. exact Hm. }
+  destruct (pack_ids_subs S _ bm _ b Hpk id Hin H2 Hpb) as (s & st & pb & Hs & Hst & Hpf & _).
+  cbn [with_bm m_fields] in Hst. rewrite Hf in Hst. exists s, st. split; [exact Hs|]. split; [exact Hst|].
+  apply (pack_enforces_tree s (Hcoh id s Hs) st pb Hpf).
+Qed.
